@@ -889,6 +889,8 @@ impl Engine for PurityShuttle {
         }
     }
 
+    const WATCHDOG_S: u64 = 30;
+
     fn on_hang(t: &ShuttleTrace) -> Option<ShuttleTrace> {
         if !t.seam_yields {
             return None;
